@@ -315,7 +315,7 @@ def cases(tier, seed):
                 mi += 1
     # ---- seeded -------------------------------------------------------------------------------------------
     rng = common.rng_for(seed, ID)
-    n_val = 150 if tier == 'quick' else 5000
+    n_val = 600 if tier == 'quick' else 5000
     for _ in range(n_val):
         host = rng.choice(HOSTS)
         b = []
@@ -324,7 +324,7 @@ def cases(tier, seed):
                       'parens': rng.choice(('min', 'rand', 'rand', 'full')), 'style': rng.choice((0, 1, 2, 2)),
                       'lseed': rng.randrange(10 ** 6)})
         yield {'kind': 'value', 'host': host, 'items': b}
-    n_lazy = 300 if tier == 'quick' else 10000
+    n_lazy = 1200 if tier == 'quick' else 10000
     for _ in range(n_lazy):
         host = rng.choice(('text', 'file'))
         t = _rand_tree(rng, rng.choice((2, 3)), 3)
@@ -333,7 +333,7 @@ def cases(tier, seed):
                 leaf[3] = 'P%d' % j
         yield {'kind': 'lazy', 'host': host, 'items': [{'host': host, 'tree': t, 'parens': rng.choice(('min', 'rand')),
                                                         'style': rng.choice((0, 1, 2)), 'lseed': rng.randrange(10 ** 6)}]}
-    n_mal = 200 if tier == 'quick' else 8000
+    n_mal = 800 if tier == 'quick' else 8000
     for _ in range(n_mal):
         yield {'kind': 'malformed', 'host': rng.choice(HOSTS + ['transformer']), 'defect': rng.choice(MAL_KINDS),
                'variant': rng.randrange(10 ** 6)}
